@@ -369,6 +369,32 @@ fn main() {
             ctx.violation(&k, json!({"sys":"bus_soak","max_live":max_live,"steps":soak_steps}), format!("soak history of {soak_steps} steps with up to {max_live} live outputs: ...{short}"), None);
         }
     }
+    // deep-lag probes: a leader runs K frames ahead of one or two laggards, who then catch up; repeated
+    for k in [5usize, 31, 32, 33, 63, 64, 65, 127, 128, 129, 300] {
+        for laggards in [1usize, 2] {
+            let mut acts = vec![Act::Send; laggards + 1];
+            for round in 0..3 {
+                for _ in 0..k {
+                    acts.push(Act::Next(0));
+                }
+                for l in 1..=laggards {
+                    // the second laggard stops one frame short in odd rounds
+                    let n = if l == 2 && round % 2 == 1 { k - 1 } else { k };
+                    for _ in 0..n {
+                        acts.push(Act::Next(l as u8));
+                    }
+                }
+            }
+            let case = json!({"sys":"bus_deep_lag","k":k,"laggards":laggards});
+            guard::enter(&case.to_string());
+            ctx.add_evals(acts.len() as u64);
+            if let Err((key, m)) = run_history(&acts, acts.len() + 10, 0) {
+                let short: String = m.chars().rev().take(300).collect::<String>().chars().rev().collect();
+                ctx.violation(&key, case, format!("a leader {k} frames ahead of {laggards} laggard(s): ...{short}"), None);
+            }
+        }
+    }
+    ctx.rule("deep-lag probes: a leader runs K frames ahead (K in 5,31,32,33,63,64,65,127,128,129,300) of one or two laggards who then catch up, three rounds, same checks after every step");
     ctx.rule(&format!("soak probes: one deterministic history of {soak_steps} steps (sends, pull bursts, drops chosen by a fixed rule from the step number and the reference state) with up to 1, 2, 3 and 6 live outputs on a single bus, same checks after every step (single executions, labelled)"));
     let c = BusModel { ctx }.checker().threads(1).spawn_bfs().join();
     ctx.set("merged_unique_states", json!(c.unique_state_count()));
